@@ -78,6 +78,13 @@ def main():
         if rc not in (0, 1):
             res["check_out"] = o[-600:]
     finally:
+        # the per-worktree binaries and module files check.sh / c18.sh built for this scratch tree
+        import hashlib, glob
+        tag = hashlib.md5((wt + "\n").encode()).hexdigest()[:8]
+        for f in glob.glob("/verif/bin/*_%s*" % tag) + glob.glob("/verif/.work/alt_%s.*" % tag):
+            try: os.remove(f)
+            except OSError: pass
+        shutil.rmtree("/verif/.work/c18_" + tag, ignore_errors=True)
         sh("git worktree remove --force " + wt, "/repo")
         shutil.rmtree(wt, ignore_errors=True)
         shutil.rmtree(out, ignore_errors=True)
